@@ -687,8 +687,12 @@ func scenC15(c *ctx) {
 		}
 		return string(b)
 	}
+	advertised := map[string]bool{}
+	for _, n := range listSuites() {
+		advertised[n] = true
+	}
 	raw := func(tag, name string) {
-		c.rec.Emit(doNewRawSuite("C15/"+tag+"/"+fmt.Sprintf("%q", name), name, false))
+		c.rec.Emit(doNewRawSuite("C15/"+tag+"/"+fmt.Sprintf("%q", name), name, advertised[name]))
 	}
 	for i := 0; i < c.n(12, 150); i++ {
 		name := c.grammarName()
